@@ -448,9 +448,43 @@ class ProgFlow:
                 res.append((bf, bb, t))
         return res
 
+    def containers_of(self, adt):
+        """full paths of the ADTs matching the suffix `adt`, plus every workspace ADT that holds one of them by value
+        (directly, in an Option / array / tuple, transitively): overwriting such an object overwrites the field"""
+        import re as _re
+        base = set(p for p in self.prog.adts if p == adt or p.endswith('::' + adt) or p.endswith(adt))
+        cont = set(base)
+        changed = True
+        while changed:
+            changed = False
+            for p, d in self.prog.adts.items():
+                if p in cont:
+                    continue
+                for v in d.get('variants', []):
+                    for f in v.get('fields', []):
+                        ty = f.get('ty', '')
+                        if ty.startswith('&') or ty.startswith('*'):
+                            continue
+                        names = set(_re.findall(r'[A-Za-z_][A-Za-z0-9_]*(?:::[A-Za-z_][A-Za-z0-9_]*)+', ty))
+                        if names & cont:
+                            cont.add(p)
+                            changed = True
+                            break
+                    if p in cont:
+                        break
+        return base, cont
+
     def writers_of_field(self, adt, field, crates=None):
-        """all direct stores to a field named `field` of ADT `adt` (path suffix), plus aggregate constructions"""
+        """all direct stores to a field named `field` of ADT `adt` (path suffix), aggregate constructions, and
+        whole-object overwrites: a store through a projection (or core::mem::replace / take / swap on a `&mut`) whose
+        target is the ADT itself or an object holding it by value"""
         res = []
+        base, cont = self.containers_of(adt)
+
+        def head(ty):
+            ty = strip_generics(ty or '').strip()
+            return ty
+
         for body in self.prog.bodies.values():
             if crates and body.crate not in crates:
                 continue
@@ -468,9 +502,24 @@ class ProgFlow:
                             lf = 'store'
                     if lf:
                         res.append((body, b.idx, si, s, 'store'))
-                    if s.rv.k == 'agg' and s.rv.d.get('ak') == 'adt' and strip_generics(s.rv.d['adt']).endswith(adt):
+                    is_construct = s.rv.k == 'agg' and s.rv.d.get('ak') == 'adt' and strip_generics(s.rv.d['adt']).endswith(adt)
+                    if is_construct:
                         if field in s.rv.d.get('fields', []):
                             res.append((body, b.idx, si, s, 'construct'))
+                    if s.lhs.proj and not lf and head(s.lhs.ty) in cont and not (is_construct and head(s.lhs.ty) in base):
+                        res.append((body, b.idx, si, s, 'overwrite'))
+                t = b.term
+                if t.k == 'call' and t.func is not None and t.func.const:
+                    fn = strip_generics(t.func.const.get('fn', '') or '')
+                    if fn in ('core::mem::replace', 'core::mem::take', 'core::mem::swap'):
+                        for a in t.args[:2 if fn.endswith('swap') else 1]:
+                            ty = (a.place.ty if a.place is not None else '') or ''
+                            if ty.startswith('&mut '):
+                                ty = ty[5:]
+                                if ty.startswith("'"):
+                                    ty = ty[ty.index(' ') + 1:] if ' ' in ty else ty
+                                if head(ty) in cont:
+                                    res.append((body, b.idx, None, t, 'overwrite'))
         return res
 
 
